@@ -59,9 +59,15 @@ var errClass = regexp.MustCompile(`^(Error|TypeError|ReferenceError|RangeError|S
 var Routes = []string{"source", "script", "program", "eval", "script-on-second-runtime"}
 
 // NewVM returns a fresh runtime with the recording host function H.
-func NewVM(log *[][]any) *otto.Otto { return newVM(log) }
+func NewVM(log *[][]any) *otto.Otto { return newVMMode(log, 0) }
 
-func newVM(log *[][]any) *otto.Otto {
+// NewVMMode: as NewVM; mode selects the API entry point the host function CB calls back through
+// (0 Value.Call, 1 Otto.Call, 2 Otto.Eval) - the specification's hostcb is the same for all three.
+func NewVMMode(log *[][]any, mode int) *otto.Otto { return newVMMode(log, mode) }
+
+func newVM(log *[][]any) *otto.Otto { return newVMMode(log, 0) }
+
+func newVMMode(log *[][]any, mode int) *otto.Otto {
 	vm := otto.New()
 	vm.Set("H", func(call otto.FunctionCall) otto.Value {
 		args := make([]any, len(call.ArgumentList))
@@ -73,13 +79,25 @@ func newVM(log *[][]any) *otto.Otto {
 	})
 	// CB(f): Go code that makes an API call (Value.Call) while the script is running and hands an
 	// error of that call back to the interpreter (the specification's host function of kind hostcb)
+	var cbArg otto.Value
 	vm.Set("CB", func(call otto.FunctionCall) otto.Value {
-		v, err := call.Argument(0).Call(otto.UndefinedValue())
+		var v otto.Value
+		var err error
+		switch mode % 3 {
+		case 1:
+			v, err = call.Otto.Call("(function(f){ return f() })", nil, call.Argument(0))
+		case 2:
+			cbArg = call.Argument(0)
+			v, err = call.Otto.Eval("CBARG()()")
+		default:
+			v, err = call.Argument(0).Call(otto.UndefinedValue())
+		}
 		if err != nil {
 			panic(err)
 		}
 		return v
 	})
+	vm.Set("CBARG", func(call otto.FunctionCall) otto.Value { return cbArg })
 	return vm
 }
 
